@@ -38,72 +38,22 @@ private theorem retarget_targetNames (i : Inv) (d : Dir) : targetNames (i.retarg
 
 private theorem pure_fields {sem : Semantics} (hp : pureGen sem = true) :
     sem.genMode = .truncate ∧ sem.resetFieldDefs = true ∧ sem.resetContexts = true ∧ sem.resetCounter = true := by
-  simp [pureGen] at hp
-  exact ⟨hp.1.1.1, hp.1.1.2, hp.1.2, hp.2⟩
+  obtain ⟨h1, h2, h3, h4, _, _⟩ := pure_flags hp
+  exact ⟨h1, h2, h3, h4⟩
 
 /-- with reset-at-start semantics the outcome and everything written are independent of the process state -/
 private theorem planGen_state_indep (sem : Semantics) (hp : pureGen sem = true) (st : ProcState) (i : Inv) :
-    (planGen sem st i).2 = (planGen sem st0 i).2 := by
-  obtain ⟨_, h2, h3, h4⟩ := pure_fields hp
-  cases i with
-  | soup impl spec o => simp only [planGen, planSoup, h2, if_true]; split <;> rfl
-  | fix spec o => simp only [planGen, planFix, h3, h4, if_true]; split <;> (try rfl); split <;> rfl
-  | asn1 spec pdu pk o => rfl
-  | newProject t n a => rfl
-  | userEdit p n => rfl
+    (planGen sem st i).2 = (planGen sem st0 i).2 :=
+  planGen_snd_indep sem hp st i
 
 private theorem planGen_truncOnly (sem : Semantics) (hp : pureGen sem = true) (st : ProcState) (i : Inv) (rp : RelPlan)
-    (h : (planGen sem st i).2 = .ok rp) : truncOnly rp.acts = true := by
-  obtain ⟨h1, _, _, _⟩ := pure_fields hp
-  cases i with
-  | soup impl spec o =>
-    simp only [planGen, planSoup] at h
-    split at h
-    · cases h
-    · injection h with h; subst h
-      cases o.init <;> simp [truncOnly, h1]
-  | fix spec o =>
-    simp only [planGen, planFix] at h
-    split at h
-    · cases h
-    · split at h
-      · cases h
-      · injection h with h; subst h
-        cases o.init <;> simp [truncOnly, h1]
-  | asn1 spec pdu pk o =>
-    simp only [planGen, planAsn1] at h
-    injection h with h; subst h
-    cases o.init <;> simp [truncOnly, h1, List.all_map]
-  | newProject t n a => simp only [planGen] at h; injection h with h; subst h; rfl
-  | userEdit p n => simp only [planGen] at h; injection h with h; subst h; rfl
+    (h : (planGen sem st i).2 = .ok rp) : truncOnly rp.acts = true :=
+  planGen_acts_trunc sem hp st i rp h
 
 /-- the files a generator writes are the syntactic `targetNames` (for every semantics and state) -/
 private theorem planGen_names (sem : Semantics) (st : ProcState) (i : Inv) (hg : i.isGen = true) (rp : RelPlan)
-    (h : (planGen sem st i).2 = .ok rp) : rp.acts.map (·.name) = targetNames i := by
-  cases i with
-  | soup impl spec o =>
-    obtain ⟨app, pfx, init, dir⟩ := o
-    simp only [planGen, planSoup] at h
-    split at h
-    · cases h
-    · injection h with h; subst h
-      cases init <;> simp [targetNames]
-  | fix spec o =>
-    obtain ⟨app, pfx, init, dir⟩ := o
-    simp only [planGen, planFix] at h
-    split at h
-    · cases h
-    · split at h
-      · cases h
-      · injection h with h; subst h
-        cases init <;> simp [targetNames]
-  | asn1 spec pdu pk o =>
-    obtain ⟨app, pfx, init, dir⟩ := o
-    simp only [planGen, planAsn1] at h
-    injection h with h; subst h
-    cases init <;> simp [targetNames, Function.comp_def]
-  | newProject t n a => simp [Inv.isGen] at hg
-  | userEdit p n => simp [Inv.isGen] at hg
+    (h : (planGen sem st i).2 = .ok rp) : rp.acts.map (·.name) = targetNames i :=
+  planGen_acts_names sem st i hg rp h
 
 /-- unfolding of `invoke` for a generator invocation -/
 private theorem invoke_gen (sem : Semantics) (w : World) (i : Inv) (hg : i.isGen = true) :
@@ -519,7 +469,7 @@ theorem C17_no_leak_between_specs (b : Inv) (hg : b.isGen = true) (h : List Ev) 
 section examples
 private def specA : SoupSpec := ⟨1, some [(1, 0), (2, 1)], [1, 2], [65, 66]⟩
 private def specC : SoupSpec := ⟨2, none, [1], [65]⟩            -- no fielddef-root, one `def=` reference
-private def optsX : GenOpts := ⟨[120], [], true, .out 1⟩          -- app "x", no prefix, init file
+private def optsX : GenOpts := ⟨[120], [], true, .out 1, true⟩         -- app "x", no prefix, init file
 private def fixA : FixSpec := ⟨1, 44, [1, 2], [1], [.mk 1 [2] [.mk 2 [1] []]], [1, 2]⟩
 private def fixB : FixSpec := ⟨2, 44, [3], [3], [.mk 1 [3] []], [1]⟩
 
